@@ -20,14 +20,31 @@ def gen_series(rng, malformed=False):
     n = rng.choice([2, 2, 3, 4, 5, 8, 12, 20, 40])
     if malformed and rng.random() < 0.3:
         n = rng.choice([0, 1])
-    style = rng.choice(["walk", "walk", "drawdowns", "monotone", "ties", "flows"])
+    style = rng.choice(["walk", "walk", "drawdowns", "monotone", "ties", "flows", "steady", "flows_cancel"])
+    growth = rng.choice([0.0001, 0.001, 0.01, 0.0])
+    cancel_at = None
     v = rng.choice([100.0, 1000.0, 100000.0])
     ncf = v if rng.random() < 0.5 else 0.0
     date = 1633021200
     snaps = []
     for i in range(n):
         if i > 0:
-            if style == "monotone":
+            if style == "steady":
+                # the same growth every period: near-identical returns, variance at the edge of cancellation
+                v = v * (1.0 + growth)
+            elif style == "flows_cancel":
+                # money goes in and later comes out again by exactly the same amount: the cumulative cash flow of
+                # the last snapshot equals that of the first although flows occurred
+                v = max(1.0, v * rng.uniform(0.9, 1.12))
+                if cancel_at is None and rng.random() < 0.5:
+                    cancel_at = rng.choice([50.0, 1000.0, -30.0])
+                    ncf += cancel_at
+                    v += cancel_at
+                elif cancel_at is not None and cancel_at != 0.0 and (rng.random() < 0.5 or i == n - 1):
+                    ncf -= cancel_at
+                    v = max(1.0, v - cancel_at)
+                    cancel_at = 0.0
+            elif style == "monotone":
                 v = v * rng.choice([1.0, 1.01, 1.05])
             elif style == "ties":
                 v = rng.choice([v, v, v * 0.9, v / 0.9, 100.0, 50.0])
